@@ -621,11 +621,38 @@ func depthOf(e *search.Explanation) int {
 	return d + 1
 }
 
-// tfExact is freq / (freq + k1 * (1 - b + b * dl / avgdl)) with avgdl = sumTTF/N, in 256 bits.
-func tfExact(freq, k1, b, dl, sumTTF, N float64) *big.Float {
-	avgdl := bquo(bf(sumTTF), bf(N))
-	k := bmul(bf(k1), badd(bsub(bf(1), bf(b)), bquo(bmul(bf(b), bf(dl)), avgdl)))
-	return bquo(bf(freq), badd(bf(freq), k))
+// formulaValue evaluates the formula stated in the message of node n in 256 bits, taking the
+// variables from n's children except those given in over.  This is how the laws and the
+// score-equals-formula comparison obtain their exact values: from the implementation's own
+// statement of what it computes, not from a second copy of BM25 in the harness.
+func formulaValue(n *search.Explanation, over map[string]float64) (*big.Float, *vlib.Failure) {
+	formula, ok := formulaOf(n.Message)
+	if !ok {
+		return nil, vlib.Failf("explain-unparsed-node", "node %q states no formula", n.Message)
+	}
+	ast, err := parseExpr(formula)
+	if err != nil {
+		return nil, vlib.Failf("explain-unparsed-node", "node %q: formula %q: %v", n.Message, formula, err)
+	}
+	vars := map[string]bool{}
+	ast.vars(vars)
+	env := map[string]float64{}
+	for v := range vars {
+		if x, ok := over[v]; ok {
+			env[v] = x
+			continue
+		}
+		c, k := childByName(n, v)
+		if k != 1 {
+			return nil, vlib.Failf("explain-missing-child", "node %q: formula %q uses %q, %d children have that name", n.Message, formula, v, k)
+		}
+		env[v] = c.Value
+	}
+	r, err := ast.eval(env)
+	if err != nil {
+		return nil, vlib.Failf("explain-formula-error", "node %q: %v", n.Message, err)
+	}
+	return r.v, nil
 }
 
 // idfStated is ln(1 + (N - n + 0.5)/(n + 0.5)).
